@@ -126,8 +126,11 @@ type Session struct {
 	F            simnet.Faults  `json:"faults"`
 	Log          bool           `json:"log,omitempty"`
 	// OnOpen / OnClose: lines the driver's on-open / on-close hook writes (with return) to the device
-	OnOpen  []string `json:"on_open,omitempty"`
-	OnClose []string `json:"on_close,omitempty"`
+	OnOpen []string `json:"on_open,omitempty"`
+	// OnOpenAcquire: the network on-open hook acquires the default privilege level (as the
+	// platform definitions do)
+	OnOpenAcquire bool     `json:"on_open_acquire,omitempty"`
+	OnClose       []string `json:"on_close,omitempty"`
 	// Recover: after the first timed-out operation the device catches up (stall fault lifted).
 	Recover bool `json:"recover,omitempty"`
 	// StopAfterError: stop the workload after this many failed operations (0 = never).
@@ -408,9 +411,18 @@ func StartSession(env *Env, sc *Session) (*SessionRun, <-chan struct{}) {
 			opts = append(opts, options.WithOnClose(func(d *generic.Driver) error { return f(d.Channel) }))
 		}
 	} else {
-		if len(sc.OnOpen) > 0 {
+		if len(sc.OnOpen) > 0 || sc.OnOpenAcquire {
 			f := hook(sc.OnOpen)
-			opts = append(opts, options.WithNetworkOnOpen(func(d *network.Driver) error { return f(d.Channel) }))
+			acq := sc.OnOpenAcquire
+			opts = append(opts, options.WithNetworkOnOpen(func(d *network.Driver) error {
+				if acq {
+					if err := d.AcquirePriv(d.DefaultDesiredPriv); err != nil {
+						return err
+					}
+				}
+
+				return f(d.Channel)
+			}))
 		}
 		if len(sc.OnClose) > 0 {
 			f := hook(sc.OnClose)
